@@ -142,6 +142,7 @@ func (vc *VC) verifyBody() {
 	}
 	_ = sig
 	vc.entry = st.clone()
+	vc.specRecv, vc.specArgs, vc.panicPosts = recv, args, true
 	vc.assumeEntryLocks(st, fi)
 	// preconditions
 	if fi.Spec != nil {
